@@ -179,7 +179,7 @@ def bounds(case, ctx):
         raise Violation("C20.boundary", f"boundary = {tuple(int(v) for v in b)}, index set spans {want}")
     p = case["pad"]
     with lentil_call("C20.boundary_slice", "boundary_slice"):
-        sl = lhelper.boundary_slice(x, thr, pad=tuple(p))
+        sl = lhelper.boundary_slice(x, thr, pad=p[0] if p[0] == p[1] else tuple(p))      # scalar pad = both axes
     r0, r1 = max(want[0] - p[0], 0), min(want[1] + p[0] + 1, m.shape[0])
     c0, c1 = max(want[2] - p[1], 0), min(want[3] + p[1] + 1, m.shape[1])
     got = (int(sl[0].start), int(sl[0].stop), int(sl[1].start), int(sl[1].stop))
